@@ -84,6 +84,11 @@ type family struct {
 	bigHints []string
 	// canon: values File.CanonicalPath may be set to (besides leaving it empty)
 	canon []string
+	// rehint: after a first render, every dot-imported path that was referenced may be hinted again
+	// as something else; having been rendered bare it stays a dot-import
+	rehint bool
+	// oneDict: the references may also be put, all together, into one Dict (as values / as keys)
+	oneDict bool
 }
 
 func (fam *family) hintOpts(p string) []hintOpt {
@@ -203,12 +208,20 @@ func (fam *family) scenario(c *explore.Ctx) *imp.World {
 		w.CgoPreamble(p)
 	}
 
-	for _, p := range seq {
-		wi := fam.wrappers[0]
-		if len(fam.wrappers) > 1 {
-			wi = fam.wrappers[c.Choose(len(fam.wrappers))]
+	inDict := 0
+	if fam.oneDict && len(seq) > 1 {
+		inDict = c.Choose(3)
+	}
+	if inDict > 0 {
+		w.RefsInOneDict(seq, inDict == 2)
+	} else {
+		for _, p := range seq {
+			wi := fam.wrappers[0]
+			if len(fam.wrappers) > 1 {
+				wi = fam.wrappers[c.Choose(len(fam.wrappers))]
+			}
+			w.Ref(p, wi)
 		}
-		w.Ref(p, wi)
 	}
 	if hintsLast {
 		applySettings()
@@ -223,6 +236,16 @@ func (fam *family) scenario(c *explore.Ctx) *imp.World {
 	case timing == 3:
 		w.MidRender()
 		w.Prefix("")
+	}
+	if fam.rehint && c.Bool() {
+		w.MidRender()
+		for _, p := range distinct {
+			if w.Dot[p] {
+				// straight on the File: the world keeps regarding the path as dot-imported
+				w.F.ImportAlias(p, "z9")
+				w.Log = append(w.Log, fmt.Sprintf("ImportAlias(%q,\"z9\") after the render", p))
+			}
+		}
 	}
 	return w
 }
